@@ -26,6 +26,7 @@ CONSTANTS
     MaxCrashes,      \* crash budget
     MaxTaskRestarts, \* in-process task restart budget (mode "node")
     Modes,           \* subset of {"node", "svc"}
+    Times,           \* time stamps an event may carry (part of the event alphabet, see Feed)
     KnownDeviation   \* TRUE: tolerate the recorded deviation c08-named-topic-missed in the properties
 
 Levels == 0..3
@@ -36,7 +37,7 @@ EmptyTopic == [i \in Ids |-> Absent]
 EmptyAll == [t \in Topics |-> EmptyTopic]
 NoSeqs == [t \in Topics |-> <<>>]
 NoneClosed == [t \in Topics |-> FALSE]
-NoPoint == [id |-> "", lvl |-> 0, k |-> -1]
+NoPoint == [id |-> "", lvl |-> 0, k |-> -1, tm |-> 0]
 NoPend == [t |-> "", id |-> "", lvl |-> 0]
 
 VARIABLES
@@ -94,9 +95,16 @@ RefStep(id, l) ==
 (* ---------------- mode node: one data point ---------------- *)
 AfterFeed(id) == IF node[id] = Absent THEN "restore" ELSE "eval"
 
-Feed(id, l) ==
+(* Every event carries a time stamp tm.  Times need not be monotone per ID (late and    *)
+(* out-of-order points, overlapping batch windows, replays, two publishers): tm is      *)
+(* deliberately read by NO action - in memory and on disk the state of an ID is that of *)
+(* the LAST event collected, whatever its time, and that is what a restart resumes at.  *)
+(* (tm is dropped from `cur` when the point completes; it only widens the alphabet.)    *)
+Done(c) == [c EXCEPT !.tm = 0]
+
+Feed(id, l, tm) ==
     /\ mode = "node" /\ pc = "idle" /\ ~refeed /\ n < MaxPoints
-    /\ cur' = [id |-> id, lvl |-> l, k |-> n]
+    /\ cur' = [id |-> id, lvl |-> l, k |-> n, tm |-> tm]
     /\ n' = n + 1
     /\ RefStep(id, l)
     /\ pc' = AfterFeed(id)
@@ -142,7 +150,8 @@ Eval ==
     /\ pc = "eval"
     /\ node' = [node EXCEPT ![cur.id] = cur.lvl]
     /\ pc' = IF Emits(cfg.sco, node[cur.id], cur.lvl) THEN FirstCollect ELSE "idle"
-    /\ UNCHANGED <<mode, cfg, mem, closed, disk, told, toldB, cur, pend, refeed, n, crashes, trestarts, refNode, refMem, rec, last, kf>>
+    /\ cur' = IF Emits(cfg.sco, node[cur.id], cur.lvl) THEN cur ELSE Done(cur)
+    /\ UNCHANGED <<mode, cfg, mem, closed, disk, told, toldB, pend, refeed, n, crashes, trestarts, refNode, refMem, rec, last, kf>>
 
 (* Service.Collect, first half: restoreClosedTopic if needed, then topics.Collect  *)
 (* (update the event state under the topic lock, hand the event to the handlers).  *)
@@ -167,7 +176,8 @@ Persist(t) ==
     /\ disk' = [disk EXCEPT ![t][cur.id] = IF cur.lvl = 0 THEN Absent ELSE cur.lvl]
     /\ rec' = [rec EXCEPT ![t][cur.id] = cur.lvl]
     /\ pc' = IF mode = "node" /\ t = "anon" /\ cfg.named THEN "mem_named" ELSE "idle"
-    /\ UNCHANGED <<mode, cfg, mem, closed, told, toldB, node, cur, pend, refeed, n, crashes, trestarts, refNode, refMem, last, kf>>
+    /\ cur' = IF mode = "node" /\ t = "anon" /\ cfg.named THEN cur ELSE Done(cur)
+    /\ UNCHANGED <<mode, cfg, mem, closed, told, toldB, node, pend, refeed, n, crashes, trestarts, refNode, refMem, last, kf>>
 
 (* StopTask ; StartTask in the same process: runAlert ends with CloseTopic(anon),   *)
 (* starts with RegisterAnonHandler + RestoreTopic(anon); group states are new.       *)
@@ -180,9 +190,9 @@ TaskRestart ==
     /\ UNCHANGED <<mode, cfg, disk, told, toldB, pc, cur, pend, refeed, n, crashes, refNode, refMem, rec, last, kf>>
 
 (* ---------------- mode svc: operations on the service ---------------- *)
-SCollect(t, id, l) ==
+SCollect(t, id, l, tm) ==
     /\ mode = "svc" /\ pc = "idle" /\ n < MaxPoints
-    /\ cur' = [id |-> id, lvl |-> l, k |-> n] /\ n' = n + 1
+    /\ cur' = [id |-> id, lvl |-> l, k |-> n, tm |-> tm] /\ n' = n + 1
     /\ pc' = "mem_" \o t
     /\ UNCHANGED <<mode, cfg, mem, closed, disk, told, toldB, node, pend, refeed, crashes, trestarts, refNode, refMem, rec, last, kf>>
 
@@ -233,11 +243,11 @@ Restart ==                               \* Service.Open: loadSavedTopicStates; 
     /\ UNCHANGED <<mode, cfg, closed, disk, told, toldB, node, cur, pend, refeed, n, crashes, trestarts, refNode, refMem, rec, kf>>
 
 Next ==
-    \/ \E id \in Ids, l \in Levels : Feed(id, l)
+    \/ \E id \in Ids, l \in Levels, tm \in Times : Feed(id, l, tm)
     \/ Refeed \/ RestoreNode \/ RestorePersist \/ Eval
     \/ \E t \in Topics : MemCollect(t) \/ Persist(t) \/ DeleteCommit(t)
     \/ TaskRestart
-    \/ \E t \in Topics : (\E id \in Ids, l \in Levels : SCollect(t, id, l)) \/ SClose(t) \/ SDelete(t)
+    \/ \E t \in Topics : (\E id \in Ids, l \in Levels, tm \in Times : SCollect(t, id, l, tm)) \/ SClose(t) \/ SDelete(t)
     \/ Crash \/ Restart
 
 Spec == Init /\ [][Next]_vars
